@@ -195,6 +195,15 @@ CLAIMED["C13"]["text"] = CLAIMED["C13"]["text"] + (" CONSTRUCTORS: New<X>WithDef
 CLAIMED["C16"]["text"] = CLAIMED["C16"]["text"] + (" Props/C16_defaults.v: with the real codec a reply that mentions exactly the requested keys is accepted and filed under the originals when every key is default-complete "
     "(proved through the C01 round trip); without that premise the statement is refuted by a record key that leaves a defaulted field unset (known finding).")
 
+for _p in ("C11", "C07"):
+    CLAIMED[_p]["text"] = CLAIMED[_p]["text"] + (" ROOT partial-update bindings (flat Delete_Fields / Set_Fields structs): own model Codec/RootPatch.v, 23 theorems incl. a proved patch round trip "
+        "(Props/C11_rootpatch.v) and own correspondence (Corr/RootPatchCorr.v); only the ROR2 reading of patch documents is oracle-only.")
+CLAIMED["C11"]["text"] = CLAIMED["C11"]["text"].replace("(Props/C11_patch.v; general patch round trip not proved: example + differential run)", "(Props/C11_patch.v; for the v2 bindings the general patch round trip is not proved: example + differential run)")
+CODEC_NOTE_OLD = "root partial-update bindings: oracle only)"
+for _p in list(CLAIMED):
+    if CODEC_NOTE_OLD in CLAIMED[_p].get("note", ""):
+        CLAIMED[_p]["note"] = CLAIMED[_p]["note"].replace(CODEC_NOTE_OLD, "root partial-update bindings: own model Codec/RootPatch.v)")
+
 def main():
     checks, na = [], []
     for p in ALL:
